@@ -1888,7 +1888,9 @@ class ParallelSampleSMP:
                     self.rng.choice(
                         number_of_chains, exchanges_per_proposal * 2, replace=False
                     )
-                    for i in range(int(proposals / exchange_interval))
+                    # one row for every proposal index that is a multiple of the
+                    # interval: 0, interval, 2 * interval, ... < proposals
+                    for i in range(int(_numpy.ceil(proposals / exchange_interval)))
                 ]
             )
             # Communication object
